@@ -1153,10 +1153,12 @@ struct Digit {
 
         ++index;
 
+        // The digit above the rounding digit decides a tie; beyond the last digit it is a (leading) zero.
         const bool round =
             (((*number > DigitUtils::DigitChar::Five) ||
               ((*number == DigitUtils::DigitChar::Five) &&
-               (round_up || ((SizeT32(stream.First()[index] - DigitUtils::DigitChar::Zero) & 1U) == 1U)))));
+               (round_up ||
+                ((number < last) && ((SizeT32(stream.First()[index] - DigitUtils::DigitChar::Zero) & 1U) == 1U))))));
 
         if (round) {
             ++number;
